@@ -3331,6 +3331,11 @@ func MarshalSRBSID(bsid *bgp.TunnelEncapSubTLVSRBSID) (*api.SRBindingSID, error)
 		Sid: make([]byte, len(bsid.BSID.Value)),
 	}
 	copy(s.Sid, bsid.BSID.Value)
+	if len(s.Sid) == 4 {
+		// The native value is the wire form (label in the 20 high-order bits); the API carries the
+		// label as a number, which is what UnmarshalSRBSID (bgp.NewBSID) shifts back into place.
+		binary.BigEndian.PutUint32(s.Sid, binary.BigEndian.Uint32(s.Sid)>>12)
+	}
 	s.SFlag = bsid.Flags&0x80 == 0x80
 	s.IFlag = bsid.Flags&0x40 == 0x40
 	return s, nil
